@@ -105,6 +105,51 @@ Section Sim.
       let s' := mkSim st' vm (add_step (str s) vm) in
       (s', match failing_assert vm with Some a => AssertFailed a | None => Done end).
 
+  (* ---- the same step as a list of events (Gen/StepOrder.v is regenerated from the source;
+     Sim/TraceProofs.v proves exec_order <generated list> = sim_step).  Machine state: the object's
+     three fields plus the result of the combinational evaluation while it is being distributed. *)
+  Record mstate := mkM {
+    m_st : State; m_val : name -> Z; m_tr : trace; m_cur : option (State * (name -> Z))
+  }.
+  Definition m_sim (m : mstate) : sim := mkSim (m_st m) (m_val m) (m_tr m).
+  Definition apply_inputs (ins : inputs) (v : name -> Z) : name -> Z :=
+    fun w => match lookup ins w with Some x => x | None => v w end.
+
+  Fixpoint exec_events (evs : list step_event) (m : mstate) (ins : inputs) : sim * outcome :=
+    match evs with
+    | [] => (m_sim m, Done)
+    | e :: r =>
+        match e with
+        | EvValidate =>
+            if bad_inputs ins || missing_inputs ins then (m_sim m, Rejected) else exec_events r m ins
+        | EvMutatingValidate =>
+            let m' := mkM (m_st m) (apply_inputs ins (m_val m)) (m_tr m) (m_cur m) in
+            if bad_inputs ins || missing_inputs ins then (m_sim m', Rejected) else exec_events r m' ins
+        | EvPrepare => exec_events r m ins
+        | EvCompute => exec_events r (mkM (m_st m) (m_val m) (m_tr m) (Some (stepf (m_st m) ins))) ins
+        | EvPublish =>
+            exec_events r (mkM (m_st m) (match m_cur m with Some (_, vm) => vm | None => m_val m end)
+                               (m_tr m) (m_cur m)) ins
+        | EvCommit =>
+            exec_events r (mkM (match m_cur m with Some (st', _) => st' | None => m_st m end)
+                               (m_val m) (m_tr m) (m_cur m)) ins
+        | EvTrace => exec_events r (mkM (m_st m) (m_val m) (add_step (m_tr m) (m_val m)) (m_cur m)) ins
+        | EvTraceBuffers =>
+            match m_cur m with
+            | Some (_, vm) => exec_events r (mkM (m_st m) vm (add_step (m_tr m) vm) (m_cur m)) ins
+            | None => exec_events r m ins
+            end
+        | EvAssert =>
+            match failing_assert (m_val m) with
+            | Some a => (m_sim m, AssertFailed a)
+            | None => exec_events r m ins
+            end
+        end
+    end.
+
+  Definition exec_order (evs : list step_event) (s : sim) (ins : inputs) : sim * outcome :=
+    exec_events evs (mkM (sst s) (sval s) (str s) None) ins.
+
   (* calling step once per element until one raises: final object, number of calls
      that returned normally, and what the raising call did *)
   Fixpoint run (s : sim) (inss : list inputs) : sim * nat * outcome :=
